@@ -88,7 +88,7 @@ class PaneBase:
     def __class_getitem__(cls, params: t.Union[type, t.Tuple[type, ...]]):
         if not isinstance(params, tuple):
             params = (params,)
-        return _make_subclass(cls, params)
+        return _make_subclass(cls, _ParamsKey(params))
 
     def __repr__(self) -> str:
         inside = ", ".join(
@@ -401,8 +401,37 @@ class PaneOptions:
         return dataclasses.replace(self, **{k: v for (k, v) in changes.items() if v is not None})
 
 
+def _ordered_spelling(ty: t.Any) -> t.Any:
+    """Spell out `ty` structurally, keeping the order of type arguments (e.g. of union members)."""
+    args = t.get_args(ty)
+    if not len(args):
+        return ty
+    return (t.get_origin(ty), tuple(map(_ordered_spelling, args)))
+
+
+class _ParamsKey:
+    """
+    Cache key for the type parameters of a generic dataclass.
+
+    `typing` unions compare as sets (`Union[int, float] == Union[float, int]`), but
+    pane converts unions left to right, so the two spellings are different parameters.
+    """
+    __slots__ = ('params', '_spelling')
+
+    def __init__(self, params: t.Tuple[t.Any, ...]):
+        self.params: t.Tuple[t.Any, ...] = params
+        self._spelling = tuple(map(_ordered_spelling, params))
+
+    def __hash__(self) -> int:
+        return hash(self.params)
+
+    def __eq__(self, other: t.Any) -> bool:
+        return isinstance(other, _ParamsKey) and self._spelling == other._spelling
+
+
 @functools.lru_cache(maxsize=256)
-def _make_subclass(cls: t.Any, params: t.Tuple[t.Any, ...]) -> type:
+def _make_subclass(cls: t.Any, key: _ParamsKey) -> type:
+    params = key.params
     sup: t.Any = super(PaneBase, cls)
     if not hasattr(sup, '__class_getitem__'):
         raise TypeError(f"type '{cls}' is not subscriptable")
